@@ -208,9 +208,10 @@ def run_series(s):
 
 
 def drop_item_number(t):
-    """instances made by Collection carry an int attribute `item_number` at every collection level"""
+    """instances made by Collection carry an int attribute `item_number` at every collection level and
+    an int attribute `id` on every component made by a Model"""
     if "o" in t:
-        return {"o": [[k, drop_item_number(c)] for k, c in t["o"] if k != "item_number"], "cls": t["cls"]}
+        return {"o": [[k, drop_item_number(c)] for k, c in t["o"] if k not in ("item_number", "id")], "cls": t["cls"]}
     if "l" in t:
         return {"l": [drop_item_number(c) for c in t["l"]]}
     if "t" in t:
